@@ -4,6 +4,7 @@ All three generator types (direct and through the factory) under scheduler-resol
 instrumented build callbacks, callback faults / aborts followed by reuse of the same generator object.
 Oracle: stub conservation / exactly-once over the recorded callback history.
 """
+from numbers import Integral
 from collections import Counter
 
 from gcmpy.names.network_names import NetworkNames
@@ -59,7 +60,7 @@ def evaluate(sc, ctx, st, val, rec, reuse, jds, before, types_before):
         want = sum(s for _, s in l["slots"])
         args = e["args"]
         ctx.check(f"{P}.arity")
-        if len(args) != want or not all(isinstance(a, int) and not isinstance(a, bool) and 0 <= a < n for a in args):
+        if len(args) != want or not all(isinstance(a, Integral) and not isinstance(a, bool) and 0 <= a < n for a in args):
             ctx.violate(f"{P}.arity", f"invocation {e['seq']} of topology/motif {e['topo']} received {args}, "
                                       f"expected {want} vertex ids in 0..{n - 1}{tag}")
             ok_arity = False
@@ -95,7 +96,7 @@ def evaluate(sc, ctx, st, val, rec, reuse, jds, before, types_before):
         # range
         ctx.check(f"{P}.range")
         bad = [x for x in edges if not (isinstance(x, (tuple, list)) and len(x) == 2
-                                        and all(isinstance(a, int) and 0 <= a < n for a in x))]
+                                        and all(isinstance(a, Integral) and 0 <= a < n for a in x))]
         if bad:
             ctx.violate(f"{P}.range", f"edge list entry {bad[0]!r} is not a pair of vertex ids in 0..{n - 1}{tag}")
         # emitted: groups by motif id == invocations' return values
@@ -129,7 +130,7 @@ def evaluate(sc, ctx, st, val, rec, reuse, jds, before, types_before):
         G = obs["G"]
         ctx.check(f"{P}.range")
         nodes = list(G.nodes())
-        bad = [v for v in nodes if not (isinstance(v, int) and 0 <= v < n)]
+        bad = [v for v in nodes if not (isinstance(v, Integral) and 0 <= v < n)]
         if bad:
             ctx.violate(f"{P}.range", f"vertex {bad[0]!r} outside 0..{n - 1}{tag}")
         ctx.check(f"{P}.jds")
